@@ -50,7 +50,15 @@ def plan(tier, ctx):
     for k in ("adler32_sse", "adler32_avx2_4"):
         qs.append(Query("x86/adler/%s" % k, "harness.C04.adler_x86:adler_query", dict(kernel=k, cases=[[n, o] for n in range(0, 16) for o in (0, 1, 63)], abstract_from=1000),
                         core=True, family="x86/adler", weight=100))
-    fe = ["every load/store of: mem_zero_detect_* (4), xor/pq gen/check (9), gf_Nvect_dot_prod_* (33), gf_Nvect_mad_* (35), gf_vect_mul_* (2), CRC kernels (%d), adler32_* (2, len<16)" % len(CRCK)]
+    # --- igzip ICF bit emitters (the one igzip assembly family with data-independent addressing once the token
+    #     symbols and code lengths are concrete): stores inside the bit buffer incl. its 8-byte slop
+    shapes = [(40, 15, 100), (64, 15, 150), (48, 15, 64), (100, 9, 120), (17, 12, 40), (1, 15, 16)]
+    for var in ("04", "06"):
+        cases = [[sd + 100, nt, ml, sd % 8, (sd * 3) % 7, ol] for sd in (range(1, 7) if quick else range(1, 31)) for (nt, ml, ol) in shapes]
+        for i in range(0, len(cases), 18):
+            qs.append(Query("x86/icf_%s/c%d" % (var, i // 18), "harness.C10.icf_x86:icf_query", dict(variant=var, cases=cases[i:i + 18]),
+                            core=(i == 0), family="x86/igzip_icf_encode", weight=30))
+    fe = ["every load/store of: mem_zero_detect_* (4), xor/pq gen/check (9), gf_Nvect_dot_prod_* (33), gf_Nvect_mad_* (35), gf_vect_mul_* (2), CRC kernels (%d), adler32_* (2, len<16), encode_deflate_icf_{04,06}" % len(CRCK)]
     stubs, ass, outside = [], [], []
     bounds = {"x86": {"alignment offsets of buffer starts (mod 64)": offs, "lengths": "0..W+1 for EC kernels, 0..130 (+256/512 boundaries) CRC, 0..69 (+128/192/256 boundaries) zero detect, see per-family cases",
                       "regions": "exactly [ptr, ptr+len) per buffer, pointer arrays and tables exact size; everything else unmapped; accesses checked with their true width, AVX-512 masked-off lanes excluded, alignment-faulting forms checked"}}
@@ -65,6 +73,6 @@ def plan(tier, ctx):
     return Plan("C05", "model_checking", qs, engine="x86sym + cbmc-c", functions_encoded=fe, bounds=bounds, stubs=stubs,
                 assumptions=["x86 instruction semantics incl. access width/masking/alignment rules of vlib/x86sym (validated natively each run)",
                              "stack: 4 KiB red-zone-free frame above rsp readable, below rsp only after being written"] + ass,
-                outside=["all igzip assembly bodies (deflate/inflate kernels, histogram, hash, encode_df, proc_heap): data-dependent addressing, not encodable",
+                outside=["all other igzip assembly bodies (deflate/inflate kernels, histogram, hash, proc_heap): data-dependent addressing, not encodable",
                          "lengths/alignments beyond the swept sets", "include/memcpy.asm macros other than as instantiated in the checked kernels"] + outside,
                 trusted_base=["vlib/x86sym", "z3", "cbmc", "nasm/ld/objdump"])
